@@ -66,6 +66,7 @@ def bounds(tier):
 def plan(tier, seed):
     ch = [{'k': 'bytes', 'fields': BYTE_FIELDS[i:i + 3]} for i in range(0, len(BYTE_FIELDS), 3)]
     ch.append({'k': 'states'})
+    ch.append({'k': 'multi'})
     ch.append({'k': 'creator'})
     ch.append({'k': 'ts'})
     ch.append({'k': 'ids', 'pairs': tier == 'thorough'})
@@ -110,6 +111,8 @@ def classify(msgs):
 
 
 def eval_case(case):
+    if 'multi' in case:
+        return _eval_multi(case)
     reg = bool(case.get('reg'))
     impl.ensure(reg)
     spec = copy.deepcopy(BASE)
@@ -136,6 +139,47 @@ def eval_case(case):
     return []
 
 
+MULTI_KINDS = ['EH', 'MT', 'LP', 'UD', 'ZZ']
+
+
+def _multi_section(kind, pos):
+    """A section of the kind whose every field value depends on its position in the log."""
+    if kind == 'EH':
+        return {'t': 'EH', 'ver': 2 + pos, 'sub': pos, 'comp': 0x4500 + pos, 'mtm': 'MTM-%dCHR' % pos, 'sn': 'SERIAL%dxCHAR' % pos,
+                'fw': 'FWRELEASE%d' % pos, 'subfw': 'fwsub%d' % pos, 'reftime': '202102030405060%d' % pos, 'sym': 'SYMPTOM_%d' % pos * (pos + 1)}
+    if kind == 'MT':
+        return {'t': 'MT', 'ver': 4 + pos, 'sub': 5 + pos, 'comp': 0x4D00 + pos, 'mtm': 'mtm%dchar' % pos, 'sn': 'mtserial%d' % pos}
+    if kind == 'LP':
+        return {'t': 'LP', 'ver': 6 + pos, 'sub': 7 + pos, 'comp': 0x4C00 + pos, 'partid': 0x1A20 + pos, 'logid': 0x3C4D5E60 + pos,
+                'name': 'lpar%d' % pos * (1 + pos % 2), 'targets': [0x0100 * (pos + 1) + i for i in range(pos + 1)]}
+    if kind == 'UD':
+        return {'t': 'UD', 'comp': 0xABC0 + pos, 'payload': bytes([0x50 + pos] * (3 + pos)).hex()}
+    return {'t': 'ZZ', 'comp': 0x00F0 + pos, 'payload': bytes([0x60 + pos] * (2 + pos)).hex()}
+
+
+def _eval_multi(case):
+    """Header-type sections that occur several times in one log, next to each other or with other sections in between:
+    each is displayed, in its place, with exactly its own values."""
+    impl.ensure(False)
+    secs = [_multi_section(MULTI_KINDS[k], pos) for pos, k in enumerate(case['multi'])]
+    p = pelgen.pel_from_spec({'creator': 'O', 'sections': secs})
+    r = decode.parse(pelgen.encode_pel(p))
+    if r['kind'] != 'doc':
+        return [{'key': 'C02:not-decoded', 'what': 'well-formed PEL gave %s %s %s' % (r['kind'], r.get('type'), r.get('msg')), 'case': case}]
+    doc = r['doc']
+    keys = pelgen.expected_keys(p)
+    if list(doc) != keys:
+        return [{'key': 'C02:sections', 'what': 'sections shown %s, encoded %s' % (list(doc)[2:], keys[2:]), 'case': case}]
+    msgs = []
+    for sec, name in zip(secs, keys[2:]):
+        fn = {'EH': pelgen.check_eh, 'MT': pelgen.check_mt, 'LP': pelgen.check_lp}.get(sec['t'])
+        if fn:
+            msgs.extend('%s: %s' % (name, x) for x in fn(sec, doc.get(name), 'O', {'compnames': None}))
+    if msgs:
+        return [{'key': 'C02:' + msgs[0].split(':')[0].rstrip(' 0123456789') + ':' + msgs[0].split(':')[1].strip(), 'what': '; '.join(msgs[:3]), 'case': case}]
+    return []
+
+
 def _do(res, sets, reg=False, nontrivial=True, every=503):
     case = {'set': sets, 'reg': reg}
     core.arm()
@@ -155,6 +199,18 @@ def run_chunk(chunk):
         return routed
     res = ChunkResult()
     k = chunk['k']
+    if k == 'multi':
+        for n in (2, 3, 4):
+            for combo in itertools.product(range(len(MULTI_KINDS)), repeat=n):
+                if len(set(combo)) == n:
+                    continue            # nothing occurs twice
+                case = {'multi': list(combo)}
+                core.arm()
+                vs = eval_case(case)
+                core.disarm()
+                res.case(nontrivial_key=json.dumps(case), outcome=vs[0]['key'] if vs else 'ok', sample=case if res.evals % 97 == 1 else None)
+                res.add(vs)
+        return res
     if k == 'bytes':
         _do(res, [], nontrivial=False)
         for f in chunk['fields']:
